@@ -1,21 +1,8 @@
 // C04 integer <-> fixed, C05 floating <-> fixed. Exact integer oracles (IEEE bit patterns are decoded by hand).
 #include "common.h"
+#include "types.h"
 
 namespace {
-inline i128 floor_div(i128 x, i128 d) { i128 q = x / d; if( (x % d != 0) && ((x < 0) != (d < 0)) ) --q; return q; }
-const char* TN[10] = { "int8_t", "int16_t", "int32_t", "int64_t", "uint8_t", "uint16_t", "uint32_t", "uint64_t", "float", "double" };
-const int TBITS[8] = { 8, 16, 32, 64, 8, 16, 32, 64 };
-inline bool t_signed(int t) { return t < 4; }
-// mathematical value of the integer carried by 'bits' for type t
-inline i128 int_value(int t, u64 bits)
-  {
-  int w = TBITS[t];
-  if( t_signed(t) ) { if( w == 64 ) return static_cast<i64>(bits); i64 v = static_cast<i64>(bits << (64 - w)) >> (64 - w); return v; }
-  if( w == 64 ) return static_cast<i128>(bits);
-  return static_cast<i128>(bits & ((1ull << w) - 1));
-  }
-inline i128 t_min(int t) { return t_signed(t) ? -(static_cast<i128>(1) << (TBITS[t] - 1)) : 0; }
-inline i128 t_max(int t) { return t_signed(t) ? (static_cast<i128>(1) << (TBITS[t] - 1)) - 1 : (static_cast<i128>(1) << TBITS[t]) - 1; }
 const char* FIN[3] = { "fixed_t{n}", "integral_to_fixed", "make_fixed" };
 const char* TIN[3] = { "fixed_to_integral", "static_cast<T>", "fixed_to_arithmetic" };
 
